@@ -78,6 +78,10 @@ def h_front16(hx, nbytes):
     for m in CrcMasks:
         got = CRC16.calculate(data, m)
         hx.prove(got == (inv ^ m.value), "CRC16.calculate(%d octets, %s) == ~remainder ^ mask" % (nbytes, m.name))
+    buf = bytearray(data)
+    g1 = CRC16.calculate(buf, CrcMasks.CSBK)
+    g2 = CRC16.calculate(buf, CrcMasks.CSBK)
+    hx.prove(AND(bytes(buf) == data, g1 == (inv ^ CrcMasks.CSBK.value), g2 == g1), "CRC16.calculate on a bytearray: buffer unchanged, same value twice (%d octets)" % nbytes)
     for m in (CrcMasks.CSBK, CrcMasks.DataHeader, CrcMasks.PiHeader, CrcMasks.MBCHeader, CrcMasks.UnifiedSingleBlockData):
         hx.prove(IFF(CRC16.check(data, c, m), c == (inv ^ m.value)), "CRC16.check accepts exactly the computed value (%s, %d octets)" % (m.name, nbytes))
     hx.cover("ccitt")
@@ -97,6 +101,12 @@ def h_front32(hx, nbytes):
     hx.prove(got == ref, "CRC32.calculate(%d octets) == remainder over pair-swapped octets" % nbytes)
     c = hx.int(32, "c")
     hx.prove(IFF(CRC32.check(data, c), c == ref), "CRC32.check accepts exactly the computed value (%d octets)" % nbytes)
+    # the same bytes handed over in a mutable buffer, twice: same value, buffer untouched
+    buf = bytearray(data)
+    g1 = CRC32.calculate(buf)
+    hx.prove(bytes(buf) == data, "CRC32.calculate leaves a bytearray argument unchanged (%d octets)" % nbytes)
+    g2 = CRC32.calculate(buf)
+    hx.prove(AND(g1 == ref, g2 == ref), "CRC32.calculate on a bytearray, called twice, returns the reference value both times (%d octets)" % nbytes)
     hx.cover("crc32")
 
 
@@ -106,6 +116,10 @@ def h_front8(hx, n):
     hx.prove(CRC8.calculate(data) == ref, "CRC8.calculate(%d bits) == remainder" % n)
     c = hx.int(8, "c")
     hx.prove(IFF(CRC8.check(data, c), c == ref), "CRC8.check accepts exactly the computed value (%d bits)" % n)
+    # a different message of another length in between must not influence the next result
+    other = hx.ba(n + 1, "o")
+    CRC8.calculate(other)
+    hx.prove(CRC8.calculate(data) == ref, "CRC8.calculate(%d bits) unchanged after an unrelated calculation over %d bits" % (n, n + 1))
     hx.cover("crc8")
 
 
